@@ -144,9 +144,113 @@ lsp_h_line_col!(lsp_offset_to_line_col_n2, 2, any_chars);
 lsp_h_line_col!(lsp_offset_to_line_col, 3, any_chars);
 // @unit id=lsp.roundtrip.n2 props=C14 tier=thorough kind=bounded bound="texts of exactly 2 chars, FULL char domain" timeout=3600 fn=position_to_offset,offset_to_position,offset_to_line_col
 lsp_h_roundtrip!(lsp_roundtrip_n2, 2, any_chars);
-// @unit id=lsp.roundtrip.cls props=C14 tier=quick kind=bounded bound="texts of exactly 3 chars, each one of 7 class representatives (ASCII, LF, CR, 2-byte, 3-byte, astral, space)" timeout=2400 fn=position_to_offset,offset_to_position,offset_to_line_col
+// @unit id=lsp.roundtrip.cls props=C14 tier=thorough kind=bounded bound="texts of exactly 3 chars, each one of 7 class representatives (ASCII, LF, CR, 2-byte, 3-byte, astral, space)" timeout=3600 fn=position_to_offset,offset_to_position,offset_to_line_col
 lsp_h_roundtrip!(lsp_roundtrip_cls, 3, any_class_chars);
-// @unit id=lsp.position_to_offset.cls props=C14 tier=quick kind=bounded bound="texts of exactly 3 chars, each one of 7 class representatives; every editor position (boundary, past line end, past last line)" timeout=2400 fn=position_to_offset
+// @unit id=lsp.position_to_offset.cls props=C14 tier=thorough kind=bounded bound="texts of exactly 3 chars, each one of 7 class representatives; every editor position (boundary, past line end, past last line)" timeout=3600 fn=position_to_offset
 lsp_h_position!(lsp_position_to_offset_cls, 3, any_class_chars);
 // @unit id=lsp.position_to_offset.n2 props=C14 tier=thorough kind=bounded bound="texts of exactly 2 chars, FULL char domain" timeout=3600 fn=position_to_offset
 lsp_h_position!(lsp_position_to_offset_n2, 2, any_chars);
+
+// ---- constant texts, symbolic position over the FULL u32 x u32 domain -----------------------------
+// Each text is a constant (CBMC folds its UTF-8 decoding, so the whole position domain is affordable);
+// together they contain every class: ASCII, astral (2 UTF-16 units), LF, 2-byte, 3-byte, CRLF, empty
+// first/last line, empty text.
+pub(super) fn c_line(chars: &[char], k: usize) -> u32 {
+    let mut line = 0;
+    let mut i = 0;
+    while i < chars.len() {
+        if i < k && chars[i] == '\n' { line += 1; }
+        i += 1;
+    }
+    line
+}
+pub(super) fn c_col16(chars: &[char], k: usize) -> u32 {
+    let mut col = 0;
+    let mut i = 0;
+    while i < chars.len() {
+        if i < k { if chars[i] == '\n' { col = 0; } else { col += chars[i].len_utf16() as u32; } }
+        i += 1;
+    }
+    col
+}
+pub(super) fn c_byte(chars: &[char], k: usize) -> u32 {
+    let mut b = 0;
+    let mut i = 0;
+    while i < chars.len() {
+        if i < k { b += chars[i].len_utf8() as u32; }
+        i += 1;
+    }
+    b
+}
+
+macro_rules! lsp_h_position_const {
+    ($name:ident, $text:expr, $chars:expr) => {
+        #[kani::proof]
+        #[kani::unwind(20)]
+        fn $name() {
+            const TEXT: &str = $text;
+            let chars: &[char] = &$chars;
+            let n = chars.len();
+            let p = Position { line: kani::any(), character: kani::any() };
+            let got = position_to_offset(TEXT, p);
+            let last_line = c_line(chars, n);
+            kani::cover!(p.line > last_line);
+            if p.line > last_line {
+                assert!(got.is_none(), "a line beyond the last line has no offset");
+            } else {
+                // boundaries of line p.line: does one of them have exactly this UTF-16 column?
+                let mut exact: Option<u32> = None;
+                let mut line_end: usize = n;
+                let mut k = 0;
+                while k <= n {
+                    if c_line(chars, k) == p.line {
+                        if c_col16(chars, k) == p.character { exact = Some(c_byte(chars, k)); }
+                        if k == n || chars[k] == '\n' { line_end = k; }
+                    }
+                    k += 1;
+                }
+                kani::cover!(exact.is_some());
+                kani::cover!(exact.is_none());
+                if let Some(b) = exact {
+                    assert!(got == Some(b), "an editor position denotes the byte offset of the same character boundary");
+                } else if p.character > c_col16(chars, line_end) {
+                    assert!(got == Some(c_byte(chars, line_end)), "a column past the line end clamps to the line end");
+                }
+                // a column strictly inside a surrogate pair denotes no boundary: nothing claimed
+            }
+        }
+    };
+}
+
+macro_rules! lsp_h_offset_const {
+    ($name:ident, $text:expr, $chars:expr) => {
+        #[kani::proof]
+        #[kani::unwind(20)]
+        fn $name() {
+            const TEXT: &str = $text;
+            let chars: &[char] = &$chars;
+            let n = chars.len();
+            let k: usize = kani::any();
+            kani::assume(k <= n);
+            let o = c_byte(chars, k);
+            let p = offset_to_position(TEXT, o);
+            kani::cover!(k == n);
+            kani::cover!(k == 0);
+            assert!(p.line == c_line(chars, k), "line = number of newlines before the offset");
+            assert!(p.character == c_col16(chars, k), "character = UTF-16 code units since the line start");
+            assert!(position_to_offset(TEXT, p) == Some(o), "offset -> position -> offset is the identity on character boundaries");
+        }
+    };
+}
+
+// @unit id=lsp.position_to_offset.fixed props=C14 tier=quick kind=bounded bound="constant 9-char text a,U+1F600,b,LF,e-acute,euro,CR,LF,z; position over the FULL u32 x u32 domain" timeout=1200 fn=position_to_offset
+lsp_h_position_const!(lsp_position_to_offset_fixed, "a\u{1f600}b\n\u{e9}\u{20ac}\r\nz", ['a', '\u{1f600}', 'b', '\n', '\u{e9}', '\u{20ac}', '\r', '\n', 'z']);
+// @unit id=lsp.position_to_offset.fixed2 props=C14 tier=quick kind=bounded bound="constant text LF,U+1F600,U+10000,x,LF (empty first and last line, two astral chars); position over the FULL u32 x u32 domain" timeout=1200 fn=position_to_offset
+lsp_h_position_const!(lsp_position_to_offset_fixed2, "\n\u{1f600}\u{10000}x\n", ['\n', '\u{1f600}', '\u{10000}', 'x', '\n']);
+// @unit id=lsp.position_to_offset.empty props=C14 tier=quick kind=bounded bound="the empty text; position over the FULL u32 x u32 domain" timeout=1200 fn=position_to_offset
+lsp_h_position_const!(lsp_position_to_offset_empty, "", [' '; 0]);
+
+// @unit id=lsp.offset_to_line_col.fixed props=C14 tier=quick kind=bounded bound="constant 9-char text a,U+1F600,b,LF,e-acute,euro,CR,LF,z; every boundary offset" timeout=1200 fn=offset_to_line_col,offset_to_position,position_to_offset
+lsp_h_offset_const!(lsp_offset_to_line_col_fixed, "a\u{1f600}b\n\u{e9}\u{20ac}\r\nz", ['a', '\u{1f600}', 'b', '\n', '\u{e9}', '\u{20ac}', '\r', '\n', 'z']);
+// @unit id=lsp.offset_to_line_col.fixed2 props=C14 tier=quick kind=bounded bound="constant text LF,U+1F600,U+10000,x,LF; every boundary offset" timeout=1200 fn=offset_to_line_col,offset_to_position,position_to_offset
+lsp_h_offset_const!(lsp_offset_to_line_col_fixed2, "\n\u{1f600}\u{10000}x\n", ['\n', '\u{1f600}', '\u{10000}', 'x', '\n']);
